@@ -107,6 +107,9 @@ STATEMENT_STATUS: Dict[str, str] = {
                           "nothing of the interpreter/device state but takes its operands off the operand stack",
     "C05_unlisted_noop": "proved: a neutral operator (ISO Tables 57, 59-61, 77, 320, 32) with at most its operands leaves the "
                          "interpreter exactly as it was (arity from the regenerated do_* table)",
+    "C05_unlisted_erase": "proved: deleting every unlisted operator from a program the text model gives a meaning to leaves "
+                          "final state and glyphs unchanged (induction over programs)",
+    "C05_unlisted_erase_page": "proved: ... for pages, and the interpreter reports exactly the glyphs of the page without them",
     "C05_unlisted_spec": "proved: where the text model admits such an operator it changes nothing and shows nothing",
     "C05_unlisted_admitted": "proved: at page level the text model admits each of them with <= its ISO operand count",
 }
